@@ -94,6 +94,12 @@ def c13_run(ctx):
     ctx.trace_validate("clientconn", "TestClientConnTrace", "TraceClientConn.tla", "TraceClientConn.cfg", n)
 
 
+def c14_run(ctx):
+    ctx.model_check("KeepAlive.tla", "MC_keepaliveQ.cfg" if ctx.tier == "quick" else "MC_keepalive.cfg", None)
+    n = 24 if ctx.tier == "quick" else 300
+    ctx.trace_validate("keepalive", "TestKeepAliveTrace", "TraceKeepAlive.tla", "TraceKeepAlive.cfg", n, maxviol=12)
+
+
 PROPS = {
     "C01": dict(title="client data leaves only toward authorised peers", level="model_checking",
                 run=core_run(["MC_relay", "MC_relayB"], ["GEN_relayA", "GEN_relayB", "GEN_relayD", "GEN_v6"]),
@@ -150,6 +156,14 @@ PROPS = {
                              "TLC replays every recorded event through the actions of ClientConn.tla (TraceClientConn.tla) and checks the invariants at every step; a rejected event is a violation",
                              "wire events are logged where the server receives them, API events around the calls; concurrent writers toward one peer IP are not driven (they serialise on a mutex the virtual clock cannot see through)",
                              "up to 16384 peers is not reached: the allocator's wrap-around is covered only by the model (MC_clientconn), the driver uses 6 peers"]),
+    "C14": dict(title="a live client keeps its relay alive; Close releases it", level="model_checking",
+                run=c14_run,
+                assumptions=["design level: KeepAlive.tla (client timers vs server count-downs vs the nonce, transactions delayed by loss) is model-checked with absolute time hidden, i.e. for ANY duration, in units of 10 s; "
+                             "quick tier without delays, thorough tier with delays up to 10 s per transaction",
+                             "code level (Engine B): the real turn.Client against the real turn.Server in one synctest bubble for 2 h 10 min of virtual time per execution, loss of up to 6 of the 7 transmissions of any transaction in either direction "
+                             "(probability 0, 0.3, 0.6 or 0.85 per transmission), idle phases of 10-55 min, 4 peers on 2 IPs; probe datagrams both ways; Close at a random moment, in a quarter of the executions right after the nonce has gone stale",
+                             "'at once' is read as: at once on a loss-free network, and within one transaction (8 s) when transmissions are lost",
+                             "'any number of peers' is not explored (4 peers); with several hundred peers the permission refresh exceeds the server's inbound MTU (observation D13 in DESIGN.md)"]),
     "C16": dict(title="TCP relay: bind once, by the owner, within 30 s, bytes intact", level="model_checking",
                 run=core_run(["MC_tcp"], ["GEN_tcpA", "GEN_tcpB"]),
                 assumptions=["control, relayed, peer and data connections are in-memory buffered streams (harness/memstream.go); connection ids are aliased by order of appearance",
